@@ -698,3 +698,100 @@ func endsFunction(b *ast.BlockStmt) bool {
 	_, ok := b.List[len(b.List)-1].(*ast.ReturnStmt)
 	return ok
 }
+
+// ---------------------------------------------------------------------------
+// R-DIRTRUNC: truncating a text that is then handed, together with the
+// matching direction, to a consumer.  Keeping the head (`s = s[:k]`) is right
+// when the consumer works left to right and wrong when it works right to left
+// (there the tail is the part adjacent to the scan position), so the
+// truncation has to sit under a direction test.
+// ---------------------------------------------------------------------------
+
+func RDirTrunc(c *core.Ctx) {
+	c.Rule("R-DIRTRUNC", "in package syntax, a string or slice that is passed to a call together with a direction value (a bool derived from Options&RightToLeft) and that the same function shortens with a one-sided slice expression (s = s[:k] or s = s[k:]) is shortened under a branch on the direction: which end may be dropped depends on the direction the consumer works in", 1)
+	p := c.P
+	syn := p.Pkg("syntax")
+	info := syn.TypesInfo
+	rtlConst := syn.Types.Scope().Lookup("RightToLeft")
+	if rtlConst == nil {
+		c.Anchor("syntax.RightToLeft")
+		return
+	}
+	n := 0
+	for _, fd := range p.FuncDecls(syn) {
+		if fd.Body == nil || p.IsTestFile(fd.Pos()) {
+			continue
+		}
+		dv := directionVars(info, fd, rtlConst)
+		if len(dv) == 0 {
+			continue
+		}
+		// texts passed along with a direction
+		texts := map[string]bool{}
+		ast.Inspect(fd.Body, func(x ast.Node) bool {
+			call, ok := x.(*ast.CallExpr)
+			if !ok {
+				return true
+			}
+			hasDir := false
+			for _, a := range call.Args {
+				if tv, ok := info.Types[a]; ok {
+					if bt, ok := tv.Type.Underlying().(*types.Basic); ok && bt.Info()&types.IsBoolean != 0 && mentionsRTL(info, a, rtlConst, dv) {
+						hasDir = true
+					}
+				}
+			}
+			if !hasDir {
+				return true
+			}
+			for _, a := range call.Args {
+				tv, ok := info.Types[a]
+				if !ok {
+					continue
+				}
+				switch t := tv.Type.Underlying().(type) {
+				case *types.Slice:
+					texts[types.ExprString(ast.Unparen(a))] = true
+				case *types.Basic:
+					if t.Info()&types.IsString != 0 {
+						texts[types.ExprString(ast.Unparen(a))] = true
+					}
+				}
+			}
+			return true
+		})
+		if len(texts) == 0 {
+			continue
+		}
+		name := core.DeclName(syn, fd)
+		g := core.NewGraph(info, fd.Body)
+		cnt := 0
+		ast.Inspect(fd.Body, func(x ast.Node) bool {
+			as, ok := x.(*ast.AssignStmt)
+			if !ok || len(as.Lhs) != 1 || len(as.Rhs) != 1 {
+				return true
+			}
+			se, ok := ast.Unparen(as.Rhs[0]).(*ast.SliceExpr)
+			if !ok || (se.Low == nil) == (se.High == nil) {
+				return true
+			}
+			lhs := types.ExprString(ast.Unparen(as.Lhs[0]))
+			if !texts[lhs] || types.ExprString(ast.Unparen(se.X)) != lhs {
+				return true
+			}
+			cnt++
+			n++
+			c.Visit(name)
+			end := "tail"
+			if se.Low != nil {
+				end = "head"
+			}
+			c.Check(guardedByDirection(info, g, as, rtlConst, dv), fmt.Sprintf("%s / truncation #%d of %s is direction-aware", name, cnt, lhs), as.Pos(),
+				"%s drops the %s of a text that is later handed to a direction-dependent consumer, without a test of the direction: for one of the two directions the wrong end is kept", types.ExprString(as.Rhs[0]), end)
+			return true
+		})
+	}
+	if n == 0 {
+		c.Anchor("a one-sided truncation of a text passed along with a direction value")
+	}
+}
